@@ -148,5 +148,544 @@ theorem cfm_key : ∀ (k : Key) (vc : Bool) (vs : String), (vc = true → hasNew
 end
 
 
+/-! ### statements and blank lines -/
+
+/-- number of `'\n'` the joiner puts between two consecutive statements -/
+def gapOf (a b : String × Nat × Nat) : Nat := min ((b.2.1 - a.2.2 - 1) + 1) 3
+
+/-- … for every consecutive pair, in order -/
+def gapsOf (stmts : List (String × Nat × Nat)) : List Nat := List.zipWith gapOf stmts stmts.tail
+
+/-- `s₁ ++ '\n'^g₁ ++ s₂ ++ '\n'^g₂ ++ … ++ sₙ` -/
+def weave : List String → List Nat → String
+  | [], _ => ""
+  | [s], _ => s
+  | s :: t :: rest, g :: gs => s ++ String.ofList (List.replicate g '\n') ++ weave (t :: rest) gs
+  | s :: t :: rest, [] => s ++ weave (t :: rest) []
+
+theorem join_nil : joinStatementsWithSpacing [] = "" := rfl
+theorem join_single (s : String) (a b : Nat) : joinStatementsWithSpacing [(s, a, b)] = s := rfl
+theorem join_cons_cons (x y : String × Nat × Nat) (rest : List (String × Nat × Nat)) :
+    joinStatementsWithSpacing (x :: y :: rest) =
+      x.1 ++ String.ofList (List.replicate (gapOf x y) '\n') ++ joinStatementsWithSpacing (y :: rest) := by
+  obtain ⟨s, a, b⟩ := x
+  obtain ⟨s2, a2, b2⟩ := y
+  simp only [joinStatementsWithSpacing, gapOf]
+
+theorem gapsOf_cons_cons (x y : String × Nat × Nat) (rest : List (String × Nat × Nat)) :
+    gapsOf (x :: y :: rest) = gapOf x y :: gapsOf (y :: rest) := by
+  simp [gapsOf]
+
+theorem join_eq_weave : ∀ stmts : List (String × Nat × Nat),
+    joinStatementsWithSpacing stmts = weave (stmts.map (·.1)) (gapsOf stmts)
+  | [] => rfl
+  | [(s, a, b)] => rfl
+  | x :: y :: rest => by
+    rw [join_cons_cons, gapsOf_cons_cons, join_eq_weave (y :: rest)]
+    simp only [List.map_cons, weave]
+
+theorem gapOf_bounds (a b : String × Nat × Nat) : 1 ≤ gapOf a b ∧ gapOf a b ≤ 3 := by
+  unfold gapOf; omega
+
+theorem gapsOf_bounds : ∀ (stmts : List (String × Nat × Nat)), ∀ g ∈ gapsOf stmts, 1 ≤ g ∧ g ≤ 3
+  | [], g, h => by simp [gapsOf] at h
+  | [x], g, h => by simp [gapsOf] at h
+  | x :: y :: rest, g, h => by
+    rw [gapsOf_cons_cons] at h
+    rcases List.mem_cons.mp h with rfl | h
+    · exact gapOf_bounds x y
+    · exact gapsOf_bounds (y :: rest) g h
+
+theorem gapsOf_length (stmts : List (String × Nat × Nat)) :
+    (gapsOf stmts).length = stmts.length - 1 := by
+  simp [gapsOf]
+
+/-- number of line breaks inside a statement's text -/
+def countNl (s : String) : Nat := s.toList.count '\n'
+
+/-- where the statements sit in the joined output: the first starts on line `line`, a
+    statement ends `countNl` lines after its start, the next one starts `gap` lines after
+    that end -/
+def relayout (line : Nat) : List (String × Nat × Nat) → List (String × Nat × Nat)
+  | [] => []
+  | [(s, _, _)] => [(s, line, line + countNl s)]
+  | (s, a, e) :: (s2, st2, e2) :: rest =>
+    (s, line, line + countNl s) ::
+      relayout (line + countNl s + gapOf (s, a, e) (s2, st2, e2)) ((s2, st2, e2) :: rest)
+
+theorem relayout_head (line : Nat) (y : String × Nat × Nat) (rest : List (String × Nat × Nat)) :
+    ∃ e' tl, relayout line (y :: rest) = (y.1, line, e') :: tl := by
+  obtain ⟨s, a, b⟩ := y
+  cases rest with
+  | nil => exact ⟨_, _, rfl⟩
+  | cons z rest => obtain ⟨s2, a2, b2⟩ := z; exact ⟨_, _, rfl⟩
+
+theorem join_relayout : ∀ (stmts : List (String × Nat × Nat)) (line : Nat),
+    joinStatementsWithSpacing (relayout line stmts) = joinStatementsWithSpacing stmts
+  | [], _ => rfl
+  | [(s, a, b)], _ => rfl
+  | (s, a, e) :: (s2, st2, e2) :: rest, line => by
+    have ih := join_relayout ((s2, st2, e2) :: rest) (line + countNl s + gapOf (s, a, e) (s2, st2, e2))
+    obtain ⟨e', tl, hr⟩ := relayout_head (line + countNl s + gapOf (s, a, e) (s2, st2, e2)) (s2, st2, e2) rest
+    simp only [relayout]
+    rw [hr] at ih ⊢
+    rw [join_cons_cons, join_cons_cons, ih]
+    have hb := gapOf_bounds (s, a, e) (s2, st2, e2)
+    have : gapOf (s, line, line + countNl s) (s2, line + countNl s + gapOf (s, a, e) (s2, st2, e2), e') =
+        gapOf (s, a, e) (s2, st2, e2) := by
+      simp only [gapOf] at hb ⊢
+      omega
+    rw [this]
+
+
+/-! ### do-blocks never print on one line -/
+
+mutual
+/-- a do-block occurs somewhere in the printed part of the tree -/
+def hasDo : Expr → Bool
+  | .list items => itemsHaveDo items
+  | .record es => entriesHaveDo es
+  | .lambda _ b => hasDo b
+  | .cond c t e => hasDo c || hasDo t || hasDo e
+  | .doBlock _ _ => true
+  | .assign _ v => hasDo v
+  | .output e => hasDo e
+  | .call f as => hasDo f || exprsHaveDo as
+  | .access e i => hasDo e || hasDo i
+  | .dot e _ => hasDo e
+  | .bin _ l r => hasDo l || hasDo r
+  | .un _ e => hasDo e
+  | .fact e => hasDo e
+  | .spread e => hasDo e
+  | _ => false
+def exprsHaveDo : List Expr → Bool
+  | [] => false
+  | e :: es => hasDo e || exprsHaveDo es
+def itemHasDo : Item → Bool
+  | .mk _ e _ => hasDo e
+def itemsHaveDo : List Item → Bool
+  | [] => false
+  | i :: is => itemHasDo i || itemsHaveDo is
+def entryHasDo : Entry → Bool
+  | .mk _ k v _ => keyHasDo k (hasDo v)
+def entriesHaveDo : List Entry → Bool
+  | [] => false
+  | e :: es => entryHasDo e || entriesHaveDo es
+/-- like `keyContains`: the value of a shorthand entry is not printed -/
+def keyHasDo : Key → Bool → Bool
+  | .static _, vd => vd
+  | .dyn k, vd => hasDo k || vd
+  | .short _, _ => false
+  | .spread e, _ => hasDo e
+end
+
+theorem hasNewline_retSrc (sc : Scope) (r : Item) : hasNewline (retSrc sc r) = true := by
+  obtain ⟨lead, e, t⟩ := r
+  have : hasNewline "\n  return " = true := by decide
+  simp only [retSrc, hasNewline_append, this, Bool.or_true, Bool.true_or]
+
+mutual
+theorem doSrc : ∀ (e : Expr), hasDo e = true → ∀ sc, hasNewline (exprSrc sc e) = true
+  | .list items, h, sc => by
+    simp only [hasDo] at h
+    obtain ⟨s, hs, hn⟩ := doSrc_items items h sc
+    simp [exprSrc, hasNewline_append, hasNewline_intercalate _ _ s hs hn]
+  | .record es, h, sc => by
+    simp only [hasDo] at h
+    obtain ⟨s, hs, hn⟩ := doSrc_entries es h sc
+    simp [exprSrc, hasNewline_append, hasNewline_intercalate _ _ s hs hn]
+  | .lambda args b, h, sc => by
+    simp only [hasDo] at h
+    simp [exprSrc, hasNewline_append, hasNewline_parenIf, doSrc b h]
+  | .cond c t e, h, sc => by
+    simp only [hasDo, Bool.or_eq_true] at h
+    simp only [exprSrc, hasNewline_append]
+    rcases h with (h | h) | h
+    · simp [doSrc c h]
+    · simp [doSrc t h]
+    · simp [doSrc e h]
+  | .doBlock ss r, _, sc => by
+    simp only [exprSrc, hasNewline_append, hasNewline_retSrc, Bool.or_true]
+  | .assign n v, h, sc => by
+    simp only [hasDo] at h
+    simp [exprSrc, hasNewline_append, doSrc v h]
+  | .output e, h, sc => by
+    simp only [hasDo] at h
+    simp [exprSrc, hasNewline_append, doSrc e h]
+  | .call f as, h, sc => by
+    simp only [hasDo, Bool.or_eq_true] at h
+    simp only [exprSrc, hasNewline_append, hasNewline_parenIf]
+    rcases h with h | h
+    · simp [doSrc f h]
+    · obtain ⟨s, hs, hn⟩ := doSrc_list as h sc
+      simp [hasNewline_intercalate _ _ s hs hn]
+  | .access e i, h, sc => by
+    simp only [hasDo, Bool.or_eq_true] at h
+    simp only [exprSrc, hasNewline_append, hasNewline_parenIf]
+    rcases h with h | h
+    · simp [doSrc e h]
+    · simp [doSrc i h]
+  | .dot e f, h, sc => by
+    simp only [hasDo] at h
+    simp [exprSrc, hasNewline_append, hasNewline_parenIf, doSrc e h]
+  | .bin op l r, h, sc => by
+    simp only [hasDo, Bool.or_eq_true] at h
+    simp only [exprSrc, hasNewline_append, hasNewline_parenIf]
+    rcases h with h | h
+    · simp [doSrc l h]
+    · simp [doSrc r h]
+  | .un op e, h, sc => by
+    simp only [hasDo] at h
+    simp [exprSrc, hasNewline_append, hasNewline_parenIf, doSrc e h]
+  | .fact e, h, sc => by
+    simp only [hasDo] at h
+    simp [exprSrc, hasNewline_append, hasNewline_parenIf, doSrc e h]
+  | .spread e, h, sc => by
+    simp only [hasDo] at h
+    simp [exprSrc, hasNewline_append, doSrc e h]
+  | .num _, h, _ | .str _, h, _ | .bool _, h, _ | .null, h, _ | .ident _, h, _ | .inref _, h, _
+  | .builtin _, h, _ => by simp [hasDo] at h
+theorem doSrc_list : ∀ (es : List Expr), exprsHaveDo es = true → ∀ sc,
+    ∃ s ∈ exprsSrc sc es, hasNewline s = true
+  | [], h, _ => by simp [exprsHaveDo] at h
+  | e :: es, h, sc => by
+    simp only [exprsHaveDo, Bool.or_eq_true] at h
+    simp only [exprsSrc, List.mem_cons, exists_eq_or_imp]
+    rcases h with h | h
+    · exact Or.inl (doSrc e h sc)
+    · exact Or.inr (doSrc_list es h sc)
+theorem doSrc_item : ∀ (i : Item), itemHasDo i = true → ∀ sc, hasNewline (itemSrc sc i) = true
+  | .mk _ e _, h, sc => by
+    simp only [itemHasDo] at h
+    simp only [itemSrc, doSrc e h]
+theorem doSrc_items : ∀ (is : List Item), itemsHaveDo is = true → ∀ sc,
+    ∃ s ∈ itemsSrc sc is, hasNewline s = true
+  | [], h, _ => by simp [itemsHaveDo] at h
+  | i :: is, h, sc => by
+    simp only [itemsHaveDo, Bool.or_eq_true] at h
+    simp only [itemsSrc, List.mem_cons, exists_eq_or_imp]
+    rcases h with h | h
+    · exact Or.inl (doSrc_item i h sc)
+    · exact Or.inr (doSrc_items is h sc)
+theorem doSrc_entry : ∀ (en : Entry), entryHasDo en = true → ∀ sc, hasNewline (entrySrc sc en) = true
+  | .mk _ k v _, h, sc => by
+    simp only [entryHasDo] at h
+    simp only [entrySrc]
+    exact doSrc_key k (hasDo v) (exprSrc sc v) (fun hv => doSrc v hv sc) h sc
+theorem doSrc_entries : ∀ (es : List Entry), entriesHaveDo es = true → ∀ sc,
+    ∃ s ∈ entriesSrc sc es, hasNewline s = true
+  | [], h, _ => by simp [entriesHaveDo] at h
+  | e :: es, h, sc => by
+    simp only [entriesHaveDo, Bool.or_eq_true] at h
+    simp only [entriesSrc, List.mem_cons, exists_eq_or_imp]
+    rcases h with h | h
+    · exact Or.inl (doSrc_entry e h sc)
+    · exact Or.inr (doSrc_entries es h sc)
+theorem doSrc_key : ∀ (k : Key) (vd : Bool) (vs : String), (vd = true → hasNewline vs = true) →
+    keyHasDo k vd = true → ∀ sc, hasNewline (keyedSrc sc k vs) = true
+  | .static _, vd, vs, hv, h, sc => by
+    simp only [keyHasDo] at h
+    simp only [keyedSrc, hasNewline_append, hv h, Bool.or_true]
+  | .dyn ke, vd, vs, hv, h, sc => by
+    simp only [keyHasDo, Bool.or_eq_true] at h
+    simp only [keyedSrc, hasNewline_append]
+    rcases h with h | h
+    · simp [doSrc ke h]
+    · simp [hv h]
+  | .short _, _, _, _, h, _ => by simp [keyHasDo] at h
+  | .spread e, _, _, _, h, sc => by
+    simp only [keyHasDo] at h
+    simp only [keyedSrc, doSrc e h]
+end
+
+
+theorem fmtSingle_default_newline (e : Expr) (h : hasDo e = true) :
+    hasNewline (if containsComments e = true then "\n" else exprToSource e) = true := by
+  split
+  · decide
+  · exact doSrc e h []
+
+mutual
+theorem doFmt : ∀ (e : Expr), hasDo e = true → hasNewline (fmtSingle e) = true
+  | .assign n v, h => by
+    simp only [hasDo] at h
+    simp only [fmtSingle, hasNewline_append, doFmt v h, Bool.or_true]
+  | .output e, h => by
+    simp only [hasDo] at h
+    simp only [fmtSingle, hasNewline_append, doFmt e h, Bool.or_true]
+  | .lambda args body, h => by
+    simp only [hasDo] at h
+    have ih := doFmt body h
+    simp only [fmtSingle]
+    split <;> simp [hasNewline_append, ih]
+  | .call f args, h => by
+    simp only [hasDo, Bool.or_eq_true] at h
+    simp only [fmtSingle, hasNewline_append, hasNewline_parenIf]
+    rcases h with h | h
+    · simp [doFmt f h]
+    · obtain ⟨s, hs, hn⟩ := doFmt_list args h
+      simp [hasNewline_intercalate _ _ s hs hn]
+  | .list items, h => by
+    simp only [hasDo] at h
+    simp only [fmtSingle]
+    split
+    · decide
+    · obtain ⟨s, hs, hn⟩ := doFmt_items items h
+      simp [hasNewline_append, hasNewline_intercalate _ _ s hs hn]
+  | .record es, h => by
+    simp only [hasDo] at h
+    simp only [fmtSingle]
+    split
+    · decide
+    · obtain ⟨s, hs, hn⟩ := doFmt_entries es h
+      simp [hasNewline_append, hasNewline_intercalate _ _ s hs hn]
+  | .cond c t e, h => by simp only [fmtSingle]; exact fmtSingle_default_newline _ h
+  | .doBlock ss r, h => by simp only [fmtSingle]; exact fmtSingle_default_newline _ h
+  | .access e i, h => by simp only [fmtSingle]; exact fmtSingle_default_newline _ h
+  | .dot e f, h => by simp only [fmtSingle]; exact fmtSingle_default_newline _ h
+  | .bin op l r, h => by simp only [fmtSingle]; exact fmtSingle_default_newline _ h
+  | .un op e, h => by simp only [fmtSingle]; exact fmtSingle_default_newline _ h
+  | .fact e, h => by simp only [fmtSingle]; exact fmtSingle_default_newline _ h
+  | .spread e, h => by simp only [fmtSingle]; exact fmtSingle_default_newline _ h
+  | .num _, h | .str _, h | .bool _, h | .null, h | .ident _, h | .inref _, h
+  | .builtin _, h => by simp [hasDo] at h
+theorem doFmt_list : ∀ (es : List Expr), exprsHaveDo es = true →
+    ∃ s ∈ fmtSingleList es, hasNewline s = true
+  | [], h => by simp [exprsHaveDo] at h
+  | e :: es, h => by
+    simp only [exprsHaveDo, Bool.or_eq_true] at h
+    simp only [fmtSingleList, List.mem_cons, exists_eq_or_imp]
+    rcases h with h | h
+    · exact Or.inl (doFmt e h)
+    · exact Or.inr (doFmt_list es h)
+theorem doFmt_item : ∀ (i : Item), itemHasDo i = true → hasNewline (fmtSingleItem i) = true
+  | .mk _ e _, h => by
+    simp only [itemHasDo] at h
+    simp only [fmtSingleItem, doFmt e h]
+theorem doFmt_items : ∀ (is : List Item), itemsHaveDo is = true →
+    ∃ s ∈ fmtSingleItems is, hasNewline s = true
+  | [], h => by simp [itemsHaveDo] at h
+  | i :: is, h => by
+    simp only [itemsHaveDo, Bool.or_eq_true] at h
+    simp only [fmtSingleItems, List.mem_cons, exists_eq_or_imp]
+    rcases h with h | h
+    · exact Or.inl (doFmt_item i h)
+    · exact Or.inr (doFmt_items is h)
+theorem doFmt_entry : ∀ (en : Entry), entryHasDo en = true → hasNewline (fmtSingleEntry en) = true
+  | .mk _ k v _, h => by
+    simp only [entryHasDo] at h
+    simp only [fmtSingleEntry]
+    exact doFmt_key k (hasDo v) (fmtSingle v) (doFmt v) h
+theorem doFmt_entries : ∀ (es : List Entry), entriesHaveDo es = true →
+    ∃ s ∈ fmtSingleEntries es, hasNewline s = true
+  | [], h => by simp [entriesHaveDo] at h
+  | e :: es, h => by
+    simp only [entriesHaveDo, Bool.or_eq_true] at h
+    simp only [fmtSingleEntries, List.mem_cons, exists_eq_or_imp]
+    rcases h with h | h
+    · exact Or.inl (doFmt_entry e h)
+    · exact Or.inr (doFmt_entries es h)
+theorem doFmt_key : ∀ (k : Key) (vd : Bool) (vs : String), (vd = true → hasNewline vs = true) →
+    keyHasDo k vd = true → hasNewline (fmtSingleKeyed k vs) = true
+  | .static _, vd, vs, hv, h => by
+    simp only [keyHasDo] at h
+    simp only [fmtSingleKeyed, hasNewline_append, hv h, Bool.or_true]
+  | .dyn ke, vd, vs, hv, h => by
+    simp only [keyHasDo, Bool.or_eq_true] at h
+    simp only [fmtSingleKeyed, hasNewline_append]
+    rcases h with h | h
+    · simp [doFmt ke h]
+    · simp [hv h]
+  | .short _, _, _, _, h => by simp [keyHasDo] at h
+  | .spread e, _, _, _, h => by
+    simp only [keyHasDo] at h
+    simp only [fmtSingleKeyed, doFmt e h]
+end
+
+/-! ### every comment in the tree -/
+
+mutual
+/-- some `Commented` node anywhere in the printed part of the tree carries a comment —
+    including the statements of do-blocks, which `contains_comments` does not look at -/
+def anyComment : Expr → Bool
+  | .list items => itemsAnyComment items
+  | .record es => entriesAnyComment es
+  | .lambda _ b => anyComment b
+  | .cond c t e => anyComment c || anyComment t || anyComment e
+  | .doBlock ss r => itemsAnyComment ss || itemAnyComment r
+  | .assign _ v => anyComment v
+  | .output e => anyComment e
+  | .call f as => anyComment f || exprsAnyComment as
+  | .access e i => anyComment e || anyComment i
+  | .dot e _ => anyComment e
+  | .bin _ l r => anyComment l || anyComment r
+  | .un _ e => anyComment e
+  | .fact e => anyComment e
+  | .spread e => anyComment e
+  | _ => false
+def exprsAnyComment : List Expr → Bool
+  | [] => false
+  | e :: es => anyComment e || exprsAnyComment es
+def itemAnyComment : Item → Bool
+  | .mk l e t => !l.isEmpty || t.isSome || anyComment e
+def itemsAnyComment : List Item → Bool
+  | [] => false
+  | i :: is => itemAnyComment i || itemsAnyComment is
+def entryAnyComment : Entry → Bool
+  | .mk l k v t => !l.isEmpty || t.isSome || keyAnyComment k (anyComment v)
+def entriesAnyComment : List Entry → Bool
+  | [] => false
+  | e :: es => entryAnyComment e || entriesAnyComment es
+def keyAnyComment : Key → Bool → Bool
+  | .static _, vc => vc
+  | .dyn k, vc => anyComment k || vc
+  | .short _, _ => false
+  | .spread e, _ => anyComment e
+end
+
+/-- "counted by `contains_comments`, or inside a do-block" -/
+abbrev CD (c d : Bool) : Prop := c = true ∨ d = true
+
+theorem CD.or {a b c d : Bool} : CD a b ∨ CD c d → CD (a || c) (b || d) := by
+  unfold CD; cases a <;> cases b <;> cases c <;> cases d <;> simp
+
+mutual
+theorem anyC : ∀ (e : Expr), anyComment e = true → CD (containsComments e) (hasDo e)
+  | .list items, h => by
+    simp only [anyComment] at h
+    simpa only [containsComments, hasDo] using anyC_items items h
+  | .record es, h => by
+    simp only [anyComment] at h
+    simpa only [containsComments, hasDo] using anyC_entries es h
+  | .lambda _ b, h => by
+    simp only [anyComment] at h
+    simpa only [containsComments, hasDo] using anyC b h
+  | .cond c t e, h => by
+    simp only [anyComment, Bool.or_eq_true] at h
+    simp only [containsComments, hasDo]
+    apply CD.or
+    rcases h with (h | h) | h
+    · exact Or.inl (CD.or (Or.inl (anyC c h)))
+    · exact Or.inl (CD.or (Or.inr (anyC t h)))
+    · exact Or.inr (anyC e h)
+  | .doBlock _ _, _ => Or.inr (by simp only [hasDo])
+  | .assign _ v, h => by
+    simp only [anyComment] at h
+    simpa only [containsComments, hasDo] using anyC v h
+  | .output e, h => by
+    simp only [anyComment] at h
+    simpa only [containsComments, hasDo] using anyC e h
+  | .call f as, h => by
+    simp only [anyComment, Bool.or_eq_true] at h
+    simp only [containsComments, hasDo]
+    apply CD.or
+    rcases h with h | h
+    · exact Or.inl (anyC f h)
+    · exact Or.inr (anyC_list as h)
+  | .access e i, h => by
+    simp only [anyComment, Bool.or_eq_true] at h
+    simp only [containsComments, hasDo]
+    apply CD.or
+    rcases h with h | h
+    · exact Or.inl (anyC e h)
+    · exact Or.inr (anyC i h)
+  | .dot e _, h => by
+    simp only [anyComment] at h
+    simpa only [containsComments, hasDo] using anyC e h
+  | .bin _ l r, h => by
+    simp only [anyComment, Bool.or_eq_true] at h
+    simp only [containsComments, hasDo]
+    apply CD.or
+    rcases h with h | h
+    · exact Or.inl (anyC l h)
+    · exact Or.inr (anyC r h)
+  | .un _ e, h => by
+    simp only [anyComment] at h
+    simpa only [containsComments, hasDo] using anyC e h
+  | .fact e, h => by
+    simp only [anyComment] at h
+    simpa only [containsComments, hasDo] using anyC e h
+  | .spread e, h => by
+    simp only [anyComment] at h
+    simpa only [containsComments, hasDo] using anyC e h
+  | .num _, h | .str _, h | .bool _, h | .null, h | .ident _, h | .inref _, h
+  | .builtin _, h => by simp [anyComment] at h
+theorem anyC_list : ∀ (es : List Expr), exprsAnyComment es = true →
+    CD (exprsContainComments es) (exprsHaveDo es)
+  | [], h => by simp [exprsAnyComment] at h
+  | e :: es, h => by
+    simp only [exprsAnyComment, Bool.or_eq_true] at h
+    simp only [exprsContainComments, exprsHaveDo]
+    apply CD.or
+    rcases h with h | h
+    · exact Or.inl (anyC e h)
+    · exact Or.inr (anyC_list es h)
+theorem anyC_item : ∀ (i : Item), itemAnyComment i = true → CD (itemHasOrContains i) (itemHasDo i)
+  | .mk l e t, h => by
+    simp only [itemAnyComment, Bool.or_eq_true] at h
+    simp only [itemHasOrContains, itemHasDo]
+    rcases h with (h | h) | h
+    · exact Or.inl (by simp [h])
+    · exact Or.inl (by simp [h])
+    · rcases anyC e h with h | h
+      · exact Or.inl (by simp [h])
+      · exact Or.inr h
+theorem anyC_items : ∀ (is : List Item), itemsAnyComment is = true →
+    CD (itemsHaveComments is) (itemsHaveDo is)
+  | [], h => by simp [itemsAnyComment] at h
+  | i :: is, h => by
+    simp only [itemsAnyComment, Bool.or_eq_true] at h
+    simp only [itemsHaveComments, itemsHaveDo]
+    apply CD.or
+    rcases h with h | h
+    · exact Or.inl (anyC_item i h)
+    · exact Or.inr (anyC_items is h)
+theorem anyC_entry : ∀ (en : Entry), entryAnyComment en = true →
+    CD (entryHasOrContains en) (entryHasDo en)
+  | .mk l k v t, h => by
+    simp only [entryAnyComment, Bool.or_eq_true] at h
+    simp only [entryHasOrContains, entryHasDo]
+    rcases h with (h | h) | h
+    · exact Or.inl (by simp [h])
+    · exact Or.inl (by simp [h])
+    · rcases anyC_key k _ _ _ (anyC v) h with h | h
+      · exact Or.inl (by simp [h])
+      · exact Or.inr h
+theorem anyC_entries : ∀ (es : List Entry), entriesAnyComment es = true →
+    CD (entriesHaveComments es) (entriesHaveDo es)
+  | [], h => by simp [entriesAnyComment] at h
+  | e :: es, h => by
+    simp only [entriesAnyComment, Bool.or_eq_true] at h
+    simp only [entriesHaveComments, entriesHaveDo]
+    apply CD.or
+    rcases h with h | h
+    · exact Or.inl (anyC_entry e h)
+    · exact Or.inr (anyC_entries es h)
+theorem anyC_key : ∀ (k : Key) (va vc vd : Bool), (va = true → CD vc vd) →
+    keyAnyComment k va = true → CD (keyContains k vc) (keyHasDo k vd)
+  | .static _, va, vc, vd, hv, h => by
+    simp only [keyAnyComment] at h
+    simpa only [keyContains, keyHasDo] using hv h
+  | .dyn ke, va, vc, vd, hv, h => by
+    simp only [keyAnyComment, Bool.or_eq_true] at h
+    simp only [keyContains, keyHasDo]
+    apply CD.or
+    rcases h with h | h
+    · exact Or.inl (anyC ke h)
+    · exact Or.inr (hv h)
+  | .short _, _, _, _, _, h => by simp [keyAnyComment] at h
+  | .spread e, _, _, _, _, h => by
+    simp only [keyAnyComment] at h
+    simpa only [keyContains, keyHasDo] using anyC e h
+end
+
+/-- no comment anywhere in a tree whose single-line form is really a single line -/
+theorem anyComment_forces_multiline (e : Expr) (h : anyComment e = true) :
+    hasNewline (fmtSingle e) = true := by
+  rcases anyC e h with h | h
+  · exact cfm e h
+  · exact doFmt e h
+
+
 end FormatL
 end Blots
